@@ -62,13 +62,18 @@ def annotate_one(plain, target, has_src, mode, anns, use_dmp):
     annotations.reverse()                       # the call must sort them itself
     o = {"target": _cp(target), "plain": _cp(plain), "hasSrc": has_src, "mode": mode,
          "anns": [list(a) for a in anns], "dmp": use_dmp, "raised": "", "items": [], "wf": True, "tc": [],
-         "src_wf": True, "src_tc": []}
+         "src_wf": True, "src_tc": [], "minimal": True}
     try:
         out = annotate_citations(plain, annotations, source_text=target if has_src else None,
                                  unbalanced_tags=mode, use_dmp=use_dmp)
         if not isinstance(out, str):
             raise TypeError("annotate_citations did not return a string")
         o["items"] = items_of(out)
+        if has_src and target != plain:
+            from eyecite.annotate import SpanUpdater
+            steps = (SpanUpdater.get_diff_steps(plain, target) if use_dmp
+                     else list(SpanUpdater.get_diff_steps_builtin(plain, target)))
+            o["minimal"] = all(op != "-" for op, _ in steps)
         o["wf"], tc = lxml_judge(out)
         o["tc"] = _cp(tc)
         o["src_wf"], stc = lxml_judge(target)
